@@ -572,6 +572,22 @@ def run_shard(ctx):
                     if d:
                         ctx.viol(f"differs:md:content:dialect:{stn}:{d[0]}", f"[md/{ch}; layout {stn}] differs from dict reference in {d[0]}: {d[1]}"[:900],
                                  common.witness(form, fmt="md", channel=ch, variant=f"dialect-{stn}", sheets=_jsonable(sheets)))
+        # (2g'') a workbook with one sheet only, called whatever the spreadsheet program called it (Sheet1, Feuille1, Form): that sheet is the survey, from every container
+        if i % 9 == 4:
+            one = gen.simple_form([("text", f"only{i}", {"label": "Only"}), ("integer", "n", {"label": "N", "relevant": "${only%d} != ''" % i})])
+            one_sheets = {"survey": one.to_sheets()["survey"]}
+            ref1 = drive.call_convert(render.to_dict(one_sheets))
+            nm = rng.choice(["Sheet1", "Feuille1", "Form", "data", "Tabelle1"])
+            renamed = {nm: one_sheets["survey"]}
+            for fmt_ in ("xlsx", "xls", "md", "csv"):
+                ch = rng.choice(["bytes", "bytesio"])  # (a path would add its stem as the fallback form id: another reference)
+                o = drive.convert_sheets(renamed, fmt=fmt_, channel=ch, args={})
+                ctx.ctr("single_sheet_workbooks")
+                ctx.case(sig=f"single-sheet|{nm}|{fmt_}|{ch}")
+                d = outcome_diff(ref1, o)
+                if d:
+                    ctx.viol(f"differs:{fmt_}:content:single-sheet-with-another-name:{d[0]}", f"[{fmt_}/{ch}] a workbook whose only sheet is called {nm!r} differs from the same sheet called 'survey' in {d[0]}: {d[1]}"[:700],
+                             common.witness(one, fmt=fmt_, channel=ch, variant="single-sheet", sheets=_jsonable(renamed)))
         # (2h) text containers saved with a UTF-8 signature (what spreadsheet programs write for "CSV UTF-8"): an encoding mark, not workbook content
         if i % 3 == 1 and md_representable(sheets):
             import tempfile
